@@ -32,20 +32,20 @@ CHECKS = {
                 text="complex and real valuations of every circuit of the alphabet, as base circuits and as results of multiply/integrate/evidence: conjugate(c), conjugate(conjugate(c)) and integrate(conjugate(c)) compared with numpy conj of the definitional oracle under all admissible semirings x flags",
                 note="complex parameters only in the complex-lse-sum semiring; missing conjugation rules are counted refusals"),
     "C08": dict(level="exploration", engine="E1", tech=E1, design="3/C08",
-                text="ALL symbolic circuit structures with <= 5 (thorough 6) layers over 3 variables (valid and invalid, empty and multivariate input scopes) and all ordered pairs of structures with <= 4 layers: flags compared with set-based definitions, soundness of structured-decomposability / compatibility, symmetry, invariance under product-input permutation and 4 variable renamings",
+                text="ALL symbolic circuit structures with <= 5 (thorough 6) layers over 3 variables (valid and invalid, empty and multivariate input scopes) all ordered pairs of structures with <= 4 layers, and every smooth+decomposable but not structured-decomposable structure with <= 6 layers paired with that whole pool: flags compared with set-based definitions, soundness of structured-decomposability / compatibility, symmetry, invariance under product-input permutation and 4 variable renamings",
                 note="one unit per layer; omni-compatibility is not part of the property and not checked"),
     "C09": dict(level="exploration", engine="E1", tech=E1, design="3/C09",
                 text="the same exhaustive population fed to every operator with every argument (all subsets of {0..3} as integration scope / observation, orders -1..2, all ordered pairs for multiply) and to the query constructors: documented exception and no circuit on invalid input; recomputed structural post-conditions on every returned circuit",
                 note="predicates used on results are validated independently by C08"),
 
     "C10": dict(level="model_checking", engine="E2", tech=E2, design="3/C10",
-                text="for 8-12 operator pipelines x 5-7 (semiring, fold, optimize) configurations: BFS over all histories (depth 2 quick / 3 thorough) of in-place updates, SGD steps through a derived circuit, resets, state-dict loads and derived-circuit resets; every history replayed on freshly compiled real objects; in every state each derived circuit must equal its definitional oracle at the parameter values read back from the operand and own no learnable tensor",
+                text="for 8-12 operator pipelines x 5-7 (semiring, fold, optimize) configurations: BFS over all histories (depth 2 quick / 3 thorough) of in-place updates, SGD steps through a derived circuit, resets, state-dict loads and derived-circuit resets; every history replayed on freshly compiled real objects; in every state (evaluated with and without autograd; a subset of configurations with all circuits in eval mode) each derived circuit must equal its definitional oracle at the parameter values read back from the operand and own no learnable tensor",
                 note="deterministic events; oracle = numpy reference of the operand + operator definition"),
     "C11": dict(level="exploration", engine="E1", tech=E1, design="3/C11",
                 text="compiled circuits of the alphabet with exp-family inputs x 8 configurations x ALL mask matrices for batch sizes 1..3 (tensor format), all single scopes, all per-sample scope lists for B=2, plus every rejection case; per sample compared with a brute-force sum / quadrature of the reference over exactly the masked variables",
                 note="Gaussian circuits with <= 2 variables; masks set True only in scope columns"),
     "C12": dict(level="exploration", engine="E1", tech=E1 + "; plus " + E2 + " for the training-history clause", design="3/C12",
-                text="every template (region graphs of all algorithms x cp/cp-t/tucker x input layer x units x classes x mixing/dense, image_data, tabular_data, hmm, fully_factorized, cp, tucker with softmax parameterisations) compiled under 8 configurations; generic and extreme (+-30) values of the unconstrained tensors; Z by brute force over the complete domain (quadrature / symbolic integrate where stated) must be 1 per output unit, values >= 0, log-space values finite; BFS over {SGD step, reset, +-30 update} histories on representatives",
+                text="every template (region graphs of all algorithms incl. the two smallest with side-by-side mixing layers x cp/cp-t/tucker x input layer x units x classes x mixing/dense, image_data, tabular_data, hmm, fully_factorized, cp, tucker with softmax parameterisations) compiled under 8 configurations; generic and extreme (+-30) values of the unconstrained tensors; Z by brute force over the complete domain (quadrature / symbolic integrate where stated) must be 1 per output unit, values >= 0, log-space values finite; BFS over {SGD step, reset, +-30 update} histories on representatives",
                 note="256-state image defaults use the compiled integrate circuit (validated by C03)"),
     "C13": dict(level="exploration", engine="E1", tech=E1, design="3/C13",
                 text="circuits of the alphabet x valuation kinds incl. exact zeros x 3 semirings x 4 flags: autograd gradients mapped back to symbolic tensors compared across flags (1e-9), with central finite differences of the numpy reference (1e-5), likewise for continuous inputs; finiteness per (row, output unit) on the zero valuations",
@@ -54,7 +54,7 @@ CHECKS = {
                 text="every parameter node type x every input shape of rank 1..3 over dims {1,2,3} x every axis (positive and negative) x fold count 1..3 through the compiler's own parameter folding, all 2-node compositions and the operator chains, optimize rewrites for every (outer axis, reduce axis): declared shape == compiled shape == computed shape and every fold slice equals the numpy definition",
                 note="uses TorchCompiler.compile_parameter and the compiler's parameter folding function directly"),
     "C15": dict(level="exploration", engine="E3", tech=E3, design="3/C15",
-                text="ALL random streams of the sampler on normalised circuits (1..3 variables, Hadamard/Kronecker, arity-1 / dense n-ary / mixing sums, categorical and binomial inputs) x 4 flags x N in {1,2}: every scalar draw is a choice point, every choice vector executed, executions weighted by their probability; the exact output distribution must equal the circuit's distribution (1e-11), with full support and shape (N, |scope|)",
+                text="ALL random streams of the sampler on normalised circuits (1..3 variables, Hadamard/Kronecker, arity-1 / dense n-ary / mixing sums, categorical and binomial inputs) x 4 flags x N in {1,2}: every scalar draw is a choice point, every choice vector executed, executions weighted by their probability; the exact output distribution must equal the circuit's distribution (1e-11), with full support and shape (N, |scope|); for N = 1 the exploration is repeated on the same circuit and query after an in-place update of every parameter",
                 note="continuous inputs are outside the enumerable alphabet; executions per configuration reported in the evidence"),
     "C16": dict(level="exploration", engine="E1", tech=E1, design="3/C16",
                 text="every argument combination of the seven construction algorithms within the stated ranges, tree2rg on every rooted labelled tree with <= 4 (thorough 5) nodes in three array forms, Chow-Liu on synthetic data sets: root / partition validity, flag vs set-based definition, dump/load round trip, and 60 build modes (3 abstractions + explicit Hadamard/Kronecker factories x units x classes) with structural post-conditions",
@@ -63,13 +63,13 @@ CHECKS = {
                 text="2710 (initialiser, shape, learnable, fold grouping, fold flag) configurations x BFS over compile (reset|update)^{<=2..3}: in every state after compile/reset each symbolic tensor's slice (read through the registry) must satisfy its own initialiser's constraints (exact constants, Dirichlet sums along the declared axis, bounds, moments on 64x64 tensors), dtype and requires_grad; resets redraw / restore",
                 note="moment clause is statistical (6 sigma, fixed seeds)"),
     "C18": dict(level="model_checking", engine="E2", tech=E2, design="3/C18",
-                text="explicit-state BFS over all histories up to depth 5 (thorough 7) of 10 context / compile / operator events for 4 (thorough 8) pairs of context flag sets; each transition executes the real API inside contextvars.copy_context(); a reference model (context stack, per-context compiled maps, compile log) is stepped in lockstep; invariant in every state: active context and operator registry, memoisation, bijection, isolation, compile-once and operands-first, operator results equal to compiling the symbolic operator",
+                text="explicit-state BFS over all histories up to depth 5 (thorough 6) of 13 context / compile / operator events (incl. compiling a chain-shaped and a DAG-shaped derived circuit before their operands) for 4 (thorough 8) pairs of context flag sets, one search shard per first event; each transition executes the real API inside contextvars.copy_context(); a reference model (context stack, per-context compiled maps, compile log) is stepped in lockstep; invariant in every state: active context and operator registry, memoisation, bijection, isolation, compile-once and operands-first, operator results equal to compiling the symbolic operator",
                 note="re-entrancy of an active context object excluded by the property; _compile_circuit is counted by monkey-patching in the harness process"),
     "C19": dict(level="model_checking", engine="E2", tech=E2, design="3/C19",
-                text="BFS over save / update / reset / load-into-fresh-instance histories (depth 3, thorough 4) for operator pipelines x 4 configurations: after every load (strict=True) the freshly compiled operand and every derived circuit reproduce the recorded outputs (1e-12); in every state the learnable state-dict entries, nn.Parameters and compiled storage of learnable symbolic tensors are in bijection",
+                text="BFS over save / update / reset / load-into-fresh-instance histories (depth 3, thorough 5) for operator pipelines x 4 configurations, also on partially frozen models and with the fresh instance in eval mode and evaluated before the load: after every load (strict=True) the freshly compiled operand and every derived circuit reproduce the recorded outputs (1e-12); in every state the learnable state-dict entries, nn.Parameters and compiled storage of learnable symbolic tensors are in bijection",
                 note="fresh instances are compiled from the same symbolic objects with a new compiler and a different RNG seed"),
     "C20": dict(level="exploration", engine="E1", tech=E1, design="3/C20",
-                text="cp / tucker / tensor_train on all small shapes x ranks x input layers: value at EVERY index tuple vs np.einsum of the read-back factor tensors; hmm on every ordering with pairwise different per-variable arguments and fully_factorized: explicit latent-chain summation and per-variable layer arguments; logic circuits: all formulas of depth <= 2 (thorough 3) over <= 3 variables, directly and through generated SDD files: truth table and model count",
+                text="cp / tucker / tensor_train on all small shapes x ranks x input layers: value at EVERY index tuple vs np.einsum of the read-back factor tensors; hmm on every ordering with pairwise different per-variable arguments and fully_factorized: explicit latent-chain summation and per-variable layer arguments; logic circuits: all formulas of depth <= 2 (thorough 3) over <= 3 variables, directly and through generated SDD files, plus disjunctions nested under disjunctions, multi-element SDD decisions and DAGs with a shared conjunction: truth table and model count",
                 note="constant formulas may refuse (no circuit over an empty scope)"),
 }
 
